@@ -6,6 +6,7 @@ import (
 	"fmt"
 	"strings"
 	"sync"
+	"sync/atomic"
 	"testing"
 	"time"
 
@@ -64,7 +65,13 @@ type world struct {
 	handed   []string // non-control inbound messages handed to the library, in order
 	pings    int
 	exhaustT time.Time
+	// logical clock: first underlying attempt per message, and the moment each Write call was issued
+	tick      int64
+	attemptAt map[string]int64
+	callAt    map[string]int64
 }
+
+func (w *world) now() int64 { return atomic.AddInt64(&w.tick, 1) }
 
 type acc struct {
 	inc int
@@ -148,6 +155,14 @@ func (t *fakeTr) Read() ([]byte, error) {
 }
 
 func (t *fakeTr) Write(b []byte) error {
+	t.w.mu.Lock()
+	if t.w.attemptAt == nil {
+		t.w.attemptAt = map[string]int64{}
+	}
+	if _, seen := t.w.attemptAt[string(b)]; !seen {
+		t.w.attemptAt[string(b)] = t.w.now()
+	}
+	t.w.mu.Unlock()
 	t.mu.Lock()
 	defer t.mu.Unlock()
 	if t.closed || t.broken {
@@ -230,6 +245,12 @@ func run(c Case, k *ev.Case) *ev.Failure {
 				msg := fmt.Sprintf("w%d-%03d", wi, n)
 				var werr error
 				t0 := time.Now()
+				w.mu.Lock()
+				if w.callAt == nil {
+					w.callAt = map[string]int64{}
+				}
+				w.callAt[msg] = w.now()
+				w.mu.Unlock()
 				ok, _ := sim.Call(10*time.Second, func() { werr = tr.Write([]byte(msg)) })
 				if !ok {
 					hung <- fmt.Sprintf("Write %s", msg)
@@ -414,6 +435,26 @@ func run(c Case, k *ev.Case) *ev.Failure {
 	for m, n := range count {
 		if m != "pong" && m != "late" && !strings.HasPrefix(m, "w") {
 			return ev.Failf("C18.1 invented-write", "the underlying connection accepted %q (x%d) which nobody wrote", m, n).WithHistory(hist())
+		}
+	}
+	// 2a. order of issue across writers: a message the transport was already trying to send before another Write was even called
+	// was issued first, and has to be accepted first (seeded change C18/m3: after a redial the request in hand was put back at
+	// the tail of the queue and overtaken by requests queued meanwhile)
+	accIdx := map[string]int{}
+	for i, a := range w.accepted {
+		if _, seen := accIdx[a.msg]; !seen {
+			accIdx[a.msg] = i
+		}
+	}
+	for ma, ta := range w.attemptAt {
+		ia, oka := accIdx[ma]
+		if !oka || !strings.HasPrefix(ma, "w") {
+			continue
+		}
+		for mb, tb := range w.callAt {
+			if ib, okb := accIdx[mb]; okb && ta < tb && ib < ia {
+				return ev.Failf("C18.2 order-of-issue", "%s was already being written to a connection before Write(%s) was called, yet %s was accepted first (positions %d and %d of the accepted log)", ma, mb, mb, ib, ia).WithHistory(hist())
+			}
 		}
 	}
 	// 2. per-writer order across incarnations (incarnations are used one after the other, so the global accepted log is the order)
